@@ -458,10 +458,24 @@ def ext_tables(ctx, values, tys_json, bounds=()):
                 pass
             if type(s) is bool:
                 extra.append(int(s))
+        if type(s) is str and any(f'"{d}"' in text for d in ('datetime', 'date', 'time')):
+            # the typed values a date/time target parses this text to: a later pass (a union's serialiser probing its members, a
+            # second conversion) hands them to the converters as OBJECTS
+            for cls_ in (datetime.datetime, datetime.date, datetime.time):
+                try:
+                    extra.append(cls_.fromisoformat(s))
+                except (ValueError, TypeError):
+                    pass
         if type(s) is bytearray:
             extra.append(bytes(s))
         if type(s) is bytes:
             extra.append(bytearray(s))
+    for s in list(scalars) + list(extra):
+        # … and what the converter's own conversions between date/time objects give (one more level)
+        if isinstance(s, datetime.datetime):
+            extra += [s.date(), s.time()]
+        elif isinstance(s, datetime.date):
+            extra.append(datetime.datetime.combine(s, datetime.time()))
     cands = []
     seen = set()
     for s in scalars + extra:
@@ -855,6 +869,35 @@ def run(scen, ctx):
         return run_instance_op(scen, ctx)
     if op in ('cmp', 'repr'):
         return run_cmp(scen, ctx)
+    if op == 'unionnorm':
+        # what `typing` makes of the nested spelling (its own flattening / de-duplication), member names in order
+        S = {'int': int, 'str': str, 'float': float, 'bool': bool, 'bytes': bytes, 'NoneType': type(None), 'complex': complex}
+        def _ubuild(m):
+            if isinstance(m, str):
+                return S[m]
+            return t.Union[tuple(_ubuild(x) for x in m)]
+        # typing memoises `Union[...]` by its arguments, and two unions with the same members in ANOTHER order are equal: a nested
+        # union may come back from that cache in the order of an earlier, different spelling (history of the process, not the
+        # normalisation).  The caches are emptied so that what is compared is the normalisation itself.
+        for _clear in getattr(t, '_cleanups', []):
+            _clear()
+        U = _ubuild(scen['members'])
+        args = t.get_args(U) if t.get_origin(U) is t.Union else (U,)
+        return {'norm': [a.__name__ for a in args]}
+    if op == 'c3h':
+        # Python's own answer: create the classes (plain classes: the linearisation is CPython's, pane only walks it)
+        made = {'object': object}
+        mros = []
+        for nm, bases in scen['classes']:
+            if any(b not in made for b in bases):
+                mros.append(None)
+                continue
+            try:
+                made[nm] = type(nm, tuple(made[b] for b in bases), {})
+                mros.append([k.__name__ for k in made[nm].__mro__])
+            except TypeError:
+                mros.append(None)
+        return {'mros': mros}
     if op == 'bcast':
         # the stock conditions `shape(s)` / `broadcastable(s)` on objects with a `.shape`, `is_broadcastable` / `broadcast_shapes`
         # with numpy and with numpy blocked (the pure-Python fallback), against numpy's own answer
